@@ -448,7 +448,7 @@ pub fn xproc_child(args: &[String]) {
 }
 
 fn xproc_pass(run: &mut Run, quick: bool) {
-    let exe = std::env::current_exe().unwrap();
+    let exe = crate::util::self_exe();
     let mut runs = 0;
     for (strategy, parts) in if quick { vec![("s3_patition", "10")] } else { vec![("s3_patition", "10"), ("s3_patition", "3"), ("s3", "10")] } {
         let stub = Stub::start("nun-db");
@@ -527,7 +527,7 @@ fn xproc_pass(run: &mut Run, quick: bool) {
 
 pub fn run(run: &mut Run) {
     let quick = run.quick();
-    let exe = std::env::current_exe().unwrap();
+    let exe = crate::util::self_exe();
     let mut jobs: Vec<Vec<String>> = vec![];
     let slices = if quick { 4 } else { 5 };
     for (strategy, parts) in [("s3", "10"), ("s3_patition", "1"), ("s3_patition", "3"), ("s3_patition", "10")] {
